@@ -119,6 +119,7 @@ type Exec struct {
 	curState  *State
 	curInstr  ssa.Instruction
 	funcsHit  map[string]int
+	fnHits    map[*ssa.Function]int
 	preset    []int
 	spawn     func(choices []int) // hand a sub-obligation to the pool
 	mergeInfo map[*ssa.Function]*mergeable
@@ -128,6 +129,8 @@ type Exec struct {
 	pure      int
 	crossDone int
 	inMerged  int
+	wk        *worker
+	buildingSnap bool
 }
 
 func (e *Exec) abort(format string, a ...interface{}) abortSignal {
@@ -594,6 +597,20 @@ func (e *Exec) ensureInit(st *State, pkg *ssa.Package) {
 	if initDenied(pkg.Pkg.Path()) {
 		return
 	}
+	if e.wk != nil && !e.buildingSnap {
+		known := false
+		for _, p := range e.wk.order {
+			if p == pkg {
+				known = true
+			}
+		}
+		if !known {
+			e.wk.order = append(e.wk.order, pkg)
+			if e.wk.snap != nil {
+				e.wk.snap.valid = false
+			}
+		}
+	}
 	init := pkg.Func("init")
 	if init == nil || len(init.Blocks) == 0 {
 		return
@@ -632,7 +649,7 @@ func (e *Exec) runNested(st *State, fv FuncV, args []Value) Value {
 	depth := len(st.frames) - 1 // index of first callee frame
 	steps := 0
 	for len(st.frames) > depth {
-		e.stepTolerant(st)
+		e.stepTolerant(st, depth)
 		steps++
 		if steps > 2000000 {
 			panic(e.abort("nested run exceeded step limit"))
@@ -741,8 +758,13 @@ func (e *Exec) runTo(st *State, stopDepth int, work *[]*State) (finished bool) {
 			}
 		}
 	}()
+	n := 0
 	for len(st.frames) > stopDepth {
 		e.step(st)
+		n++
+		if n&0xFFFF == 0 && time.Now().After(e.cfg.Deadline) {
+			panic(abortSignal{"wall-clock budget of the check exhausted"})
+		}
 	}
 	return true
 }
@@ -754,7 +776,7 @@ func (e *Exec) step(st *State) {
 	}
 	in := f.block.Instrs[f.ip]
 	e.curInstr = in
-	e.funcsHit[f.fn.String()]++
+	e.fnHits[f.fn]++
 	e.res.Steps++
 	if e.cfg.Trace {
 		fmt.Fprintf(os.Stderr, "%*s%s: %s\n", len(st.frames), "", f.fn.Name(), in.String())
@@ -791,7 +813,7 @@ func (e *Exec) pushCall(st *State, fv FuncV, args []Value, retTo ssa.Value) {
 	if len(st.frames) > 200 {
 		panic(e.abort("call depth exceeded"))
 	}
-	nf := &Frame{fn: fn, block: fn.Blocks[0], env: make(map[ssa.Value]Value, 32), visits: map[int]int{}, retTo: retTo}
+	nf := &Frame{fn: fn, block: fn.Blocks[0], env: make(map[ssa.Value]Value), visits: map[int]int{}, retTo: retTo}
 	if len(args) != len(fn.Params) {
 		panic(e.abort("internal: arity mismatch calling %s: %d vs %d", fn, len(args), len(fn.Params)))
 	}
@@ -1294,40 +1316,78 @@ var modelVarLimit = func() int {
 	return n
 }()
 
-// stepTolerant: one step of a package initialiser; an instruction that cannot
-// be modelled is skipped (its result is the zero value) so that the remaining
+// stepTolerant: one step of a package initialiser.  If anything below the
+// initialiser's own frame cannot be modelled, the whole call is abandoned:
+// the stack is unwound to the initialiser, the offending top-level
+// instruction is skipped (its result is the zero value) and the remaining
 // package-level variables still get their initial values.
-func (e *Exec) stepTolerant(st *State) {
-	f := st.top()
-	nframes := len(st.frames)
+func (e *Exec) stepTolerant(st *State, base int) {
 	defer func() {
 		if r := recover(); r != nil {
 			a, ok := r.(abortSignal)
 			if !ok {
 				panic(r)
 			}
-			// unwind to the frame that was executing and skip the instruction
-			for len(st.frames) > nframes {
-				st.frames = st.frames[:len(st.frames)-1]
+			if len(st.frames) <= base {
+				panic(a)
 			}
-			if f.ip < len(f.block.Instrs) {
-				in := f.block.Instrs[f.ip]
-				if val, ok := in.(ssa.Value); ok {
-					func() {
-						defer func() { recover() }()
-						f.env[val] = e.zero(val.Type())
-					}()
-				}
-				if _, isCtl := in.(*ssa.If); isCtl {
-					panic(a) // cannot skip control flow
-				}
-				if _, isCtl := in.(*ssa.Return); isCtl {
-					panic(a)
-				}
-				f.ip++
+			st.frames = st.frames[:base+1]
+			f := st.top()
+			if f.block == nil || f.ip >= len(f.block.Instrs) {
+				panic(a)
 			}
-			e.res.note("package initialiser: skipped an instruction: " + a.msg)
+			in := f.block.Instrs[f.ip]
+			switch in.(type) {
+			case *ssa.If, *ssa.Return, *ssa.Jump:
+				panic(a) // cannot skip control flow
+			}
+			if val, ok := in.(ssa.Value); ok {
+				func() {
+					defer func() { recover() }()
+					f.env[val] = e.zero(val.Type())
+				}()
+			}
+			f.ip++
+			e.res.note("package initialiser: skipped a top-level instruction: " + a.msg)
 		}
 	}()
 	e.step(st)
+}
+
+// prepareInit installs (building it first if needed) the worker's snapshot of
+// the initialised packages into the item's initial state.
+func (e *Exec) prepareInit(st *State) {
+	w := e.wk
+	if w == nil || len(w.order) == 0 {
+		return
+	}
+	if w.snap == nil || !w.snap.valid {
+		// build in a private context with a private result sink
+		be := &Exec{c: NewCtx(), prog: e.prog, sol: e.sol, ob: e.ob, zeroCache: map[types.Type]Value{}, globals: w.globals,
+			inputs: map[string]*Term{}, ghostSel: map[string]*Term{}, res: newObResult("init"), cfg: e.cfg, funcsHit: map[string]int{}, fnHits: map[*ssa.Function]int{},
+			mergeInfo: map[*ssa.Function]*mergeable{}, ipdomCache: map[*ssa.Function][]int{}, noConvert: map[*ssa.If]bool{}, regionOK: map[*ssa.If]bool{}, buildingSnap: true}
+		bs := &State{heap: map[int]Value{}, decided: &decidedLayer{m: map[int]uint64{}}, inited: map[*ssa.Package]bool{}, held: map[string]bool{}}
+		ok := true
+		func() {
+			defer func() {
+				if r := recover(); r != nil {
+					ok = false
+				}
+			}()
+			for _, p := range w.order {
+				be.ensureInit(bs, p)
+			}
+		}()
+		if !ok || len(bs.frames) != 0 {
+			w.snap = &initSnapshot{valid: true, heap: nil}
+			return
+		}
+		w.snap = &initSnapshot{order: append([]*ssa.Package(nil), w.order...), heap: bs.heap, nextObj: bs.nextObj, inited: bs.inited, notes: be.res.Notes, valid: true}
+	}
+	if w.snap.heap == nil {
+		return
+	}
+	if !w.snap.restore(e, st) {
+		w.snap.heap = nil
+	}
 }
